@@ -157,4 +157,4 @@ def run(tier="quick", seed=0):
     common.os.environ["VERIF_TIER"] = tier
     common.os.environ["VERIF_SEED"] = str(seed)
     return common.run("bounded.C14", cases(tier, seed), bound="1-2 blocs x slates <=3 x N<=10 x 2 seeds", rule=RULE,
-                      budget_s=170 if tier == "quick" else 1500)
+                      budget_s=600 if tier == "quick" else 1500)
